@@ -22,9 +22,11 @@ Lemma lit_of_Z_nid : forall cf z, no_int_div (lit_of_Z cf z) = true /\ int_typed
 Proof. intros. unfold lit_of_Z. destruct (dbl_of_Z z). apply flt_lit_nid. Qed.
 Lemma int_lit_nid : forall cf z, no_int_div (int_lit cf z) = true /\ (int_typed (int_lit cf z) = true -> fl cf = false).
 Proof.
-  intros. unfold int_lit. destruct (fl cf) eqn:E.
+  intros. unfold int_lit. destruct (fl cf) eqn:E; simpl.
   - destruct (lit_of_Z_nid cf z) as [A B]. split; auto. rewrite B. discriminate.
-  - destruct z; split; reflexivity.
+  - destruct (negb (fits_slong z)).
+    + destruct (lit_of_Z_nid cf z) as [A B]. split; auto.
+    + destruct z; split; reflexivity.
 Qed.
 
 Lemma print_num_inv2 : forall cf n t, print_num cf n = Ok t ->
@@ -486,7 +488,7 @@ Proof.
     cbn [nguard] in G. apply andb_true_iff in G. destruct G as [Ga Gb]. unfold Inv2. cbn [ityp].
     destruct (is_relational code) eqn:ER.
     { bind_ok H ta E. bind_ok H tb E'. inversion H; subst.
-      destruct (IHpr _ _ E Ga) as [Wa _]. destruct (IHpr _ _ E' Gb) as [Wb _].
+      destruct (ple_inv2 cf pr IHpr _ _ _ E Ga) as [Wa _]. destruct (ple_inv2 cf pr IHpr _ _ _ E' Gb) as [Wb _].
       split; [|reflexivity]. cbn [no_int_div]. rewrite Wa, Wb. unfold rel_op.
       destruct (code =? TC_Equality); [reflexivity|]. destruct (code =? TC_Unequality); [reflexivity|].
       destruct (code =? TC_LessThan); reflexivity. }
